@@ -54,7 +54,9 @@ type VarsCase struct {
 	Flags []string `json:"flags,omitempty"`
 }
 
-var varNames = []string{"AMB_A", "HOME", "LANG", "DOT_B", "BOTH_C", "PLAIN_D", "other", "Mixed_e"}
+var varNames = []string{"AMB_A", "HOME", "LANG", "DOT_B", "BOTH_C", "PLAIN_D", "other", "Mixed_e",
+	// names a Go value may also have as a method or field (Env, String, Error, Len): still just names
+	"Env", "String", "Error", "Len"}
 
 var valueRunes = []rune("abcXYZ019   $${}{{}}#\\/.,;:!?()[]<>|&*~^%@+=-_`")
 
